@@ -303,6 +303,12 @@ func cmdCheck(args []string) int {
 			for i, v := range vcases {
 				r := results[len(pick)+i]
 				confirmed := r.Fail == v.Label || (v.Label == "panic" && r.Panic != "")
+				if !confirmed && (r.Fail != "" || r.Panic != "") && !r.Assume && len(r.Missing) == 0 {
+					// the real build fails the harness on the solver's input too, at another
+					// assertion: still a violation shown by the real code
+					confirmed = true
+					v.Detail += " (native run fails at " + r.Fail + r.Panic + ")"
+				}
 				if confirmed {
 					v.Confirmed = "native"
 					ev.validated++
